@@ -13,8 +13,8 @@ use sv_parser::Error;
 
 pub fn cases(tier: Tier) -> u64 {
     match tier {
-        Tier::Quick => 120000,
-        Tier::Thorough => 3000000,
+        Tier::Quick => 400000,
+        Tier::Thorough => 8000000,
         Tier::Tiny => 32,
     }
 }
